@@ -1609,6 +1609,11 @@ static size_t produceResultArrayBinary(scpi_t * context, const void * array, siz
                 return 0;
         }
 
+        if (count == 0) {
+            /* empty block is complete at once */
+            return result + SCPI_ResultArbitraryBlockData(context, array, 0);
+        }
+
         switch (item_size) {
             case 1:
                 result += SCPI_ResultArbitraryBlockData(context, array, count);
